@@ -12,8 +12,8 @@ MS = "netconan.sensitive_item_removal:"
 LS = Ty("list", STR)
 
 R.objtype("WordAnon", pyclass=MS + "SensitiveWordAnonymizer",
-          fields={"reserved_words": SetT(STR), "salt": STR, "sens_regex": Opq("Pattern"),
-                  "sens_word_replacements": MapT(STR, STR), "conflicting_words": SetT(STR)},
+          fields={"reserved_words": Ty("setcell", STR), "salt": STR, "sens_regex": Opq("Pattern"),
+                  "sens_word_replacements": MapT(STR, STR), "conflicting_words": Ty("setcell", STR)},
           ghost={"words": Ty("list", STR), "reserved_src": SetT(STR)})
 R.objtype("FileAnon", pyclass=M + "FileAnonymizer",
           fields={"undo_ip_anon": BOOL, "anonymizer4": Opt(O4), "anonymizer6": Opt(ObjT("Ip6")),
@@ -24,11 +24,58 @@ FA = ObjT("FileAnon")
 
 # constructors of the word / AS-number anonymizers as seen from FileAnonymizer (trusted: their regex construction
 # is library behaviour); what matters here is WHICH configuration each stage receives
-R.contract(MS + "SensitiveWordAnonymizer.__init__", trusted=True,
-           types={"self": ObjT("WordAnon"), "sensitive_words": LS, "salt": STR, "reserved_words": SetT(STR)},
-           modifies=["self"],
+WA = ObjT("WordAnon")
+SPEC_BUILTINS["lower"] = __import__("pyvc.spec", fromlist=["_sp_uf_fun"])._sp_uf_fun("py_lower", STR, STR)
+
+
+def _sp_md5hex(eng, args, kw, n):
+    from .externals import md5hex
+    return P(STR, md5hex(eng.term(args[0], STR)))
+
+
+SPEC_BUILTINS["Md5Hex"] = _sp_md5hex
+# the pseudonym of a matched word: a function of salt and matched text only (C10)
+R.specfn("WordRepl", [("salt", STR), ("w", STR)], STR, "Md5Hex(salt + w)[:6]")
+R.pred("MemoOK", [("o", WA)], [
+    ("memo", "all(o.sens_word_replacements[k] == WordRepl(o.salt, k) for k in o.sens_word_replacements)"),
+])
+# which reserved words are protected from word anonymization
+R.pred("ConflictOK", [("o", WA)], [
+    ("subset", "all(implies(w in o.conflicting_words, w in o.reserved_words) for w in Str)"),
+    ("complete", "all(all(implies(has(o.words, s) and w in o.reserved_words and (lower(s) in w), "
+                 "w in o.conflicting_words) for w in Str) for s in Str)"),
+])
+
+R.contract(MS + "SensitiveWordAnonymizer._get_or_generate_sensitive_word_replacement",
+           types={"self": WA, "sensitive_word": STR}, returns=STR,
+           requires=["MemoOK(self)"], modifies=["self.sens_word_replacements"],
+           ensures=["result == WordRepl(self.salt, sensitive_word)", "MemoOK(self)",
+                    "Extends(old(self.sens_word_replacements), self.sens_word_replacements)"])
+
+SC = Ty("setcell", STR)
+R.contract(MS + "SensitiveWordAnonymizer._generate_conflicting_reserved_word_list",
+           types={"self": WA, "sensitive_words": SC}, returns=SC, modifies=["log"],
+           ensures=["all(implies(w in result, w in self.reserved_words) for w in Str)",
+                    "all(all(implies(s in sensitive_words and w in self.reserved_words and (s in w), w in result) "
+                    "for w in Str) for s in Str)"],
+           loops={0: LoopContract(["sensitive_word"], index="_i0", cell_types={"conflicting_words": STR}, invariant=[
+               "all(implies(w in conflicting_words, w in self.reserved_words) for w in Str)",
+               "all(all(implies(j < _i0 and w in self.reserved_words and (ENUM[j] in w), w in conflicting_words) "
+               "for w in Str) for j in range(_n))"])})
+
+R.contract(MS + "SensitiveWordAnonymizer._generate_sensitive_word_regex",
+           types={"cls": Ty("cls", "netconan.sensitive_item_removal", "SensitiveWordAnonymizer"), "sensitive_words": SC},
+           returns=Opq("Pattern"), ensures=["True"])
+
+R.contract(MS + "SensitiveWordAnonymizer.__init__",
+           types={"self": WA, "sensitive_words": LS, "salt": STR, "reserved_words": SetT(STR)},
+           modifies=["self", "log"],
+           ghost_exit={"self.words": "sensitive_words", "self.reserved_src": "reserved_words"},
            ensures=["self.salt == salt", "seq(self.words) == seq(sensitive_words)",
-                    "all(iff(w in self.reserved_src, w in reserved_words) for w in Str)"])
+                    "all(iff(w in self.reserved_src, w in reserved_words) for w in Str)",
+                    # reserved words are kept in lower case
+                    "all(implies(w in reserved_words, lower(w) in self.reserved_words) for w in Str)",
+                    "MemoOK(self)", "ConflictOK(self)"])
 R.contract(MS + "generate_default_sensitive_item_regexes", trusted=True, types={}, returns=Opq("ReGroups"), pure=True,
            ensures=["True"])
 
@@ -80,7 +127,8 @@ R.contract(M + "FileAnonymizer.__init__",
                "implies(%s, self.anonymizer6.preserve_suffix == (0 if preserve_suffix_v6 is None else preserve_suffix_v6))" % IPON,
                "(self.anonymizer_sensitive_word is not None) == (sensitive_words is not None)",
                "implies(sensitive_words is not None, self.anonymizer_sensitive_word.salt == self.salt and "
-               "seq(self.anonymizer_sensitive_word.words) == seq(sensitive_words))",
+               "seq(self.anonymizer_sensitive_word.words) == seq(sensitive_words) and "
+               "MemoOK(self.anonymizer_sensitive_word) and ConflictOK(self.anonymizer_sensitive_word))",
                # the word stage gets built-in + user reserved words (C10)
                "implies(sensitive_words is not None, all(iff(w in self.anonymizer_sensitive_word.reserved_src, "
                "w in self.reserved_words) for w in Str))",
@@ -118,9 +166,14 @@ R.objtypes["OutFile"].ext_methods["write"] = _out_write_rec
 R.contract(MS + "replace_matching_item", trusted=True, record=True,
            types={"compiled_regexes": Opq("ReGroups"), "input_line": STR, "pwd_lookup": MapT(STR, STR), "salt": Opt(STR),
                   "reserved_words": SetT(STR)}, returns=STR, modifies=["pwd_lookup", "log"], ensures=["True"])
-R.contract(MS + "SensitiveWordAnonymizer.anonymize", trusted=True, record=True,
+R.contract(MS + "SensitiveWordAnonymizer.anonymize", record=True,
            types={"self": ObjT("WordAnon"), "line": STR}, returns=STR, modifies=["self.sens_word_replacements"],
-           ensures=["True"])
+           requires=["MemoOK(self)"],
+           ensures=["MemoOK(self)",
+                    # the line is returned as is, or rebuilt between its own leading and trailing whitespace (C12)
+                    "result == line or (result[:len(_split_line(line)[0])] == _split_line(line)[0] and "
+                    "result[len(result) - len(_split_line(line)[2]):] == _split_line(line)[2])"],
+           loops={"sub0": LoopContract([], heap_modifies=["self.sens_word_replacements"], invariant=["MemoOK(self)"])})
 for _k in ("netconan.ip_anonymization:anonymize_ip_addr@v4", "netconan.ip_anonymization:anonymize_ip_addr@v6"):
     R.contracts[_k].record = True
 
@@ -210,10 +263,11 @@ SPEC_BUILTINS["PipelineOK"] = _sp_pipeline_ok
 WF4 = "implies(self.anonymizer4 is not None, WF(self.anonymizer4) and self.anonymizer4.length == 32)"
 WF6 = "implies(self.anonymizer6 is not None, WF(self.anonymizer6) and self.anonymizer6.length == 128)"
 ASOK = "implies(self.anonymizer_as_num is not None, AsOK(self.anonymizer_as_num))"
+WOK = "implies(self.anonymizer_sensitive_word is not None, MemoOK(self.anonymizer_sensitive_word))"
 
 R.contract(M + "FileAnonymizer.anonymize_io",
            types={"self": FA, "in_io": IN, "out_io": OUT}, returns=NONE,
-           requires=[WF4, WF6, ASOK],
+           requires=[WF4, WF6, ASOK, WOK],
            modifies=["out_io.written", "self.pwd_lookup", "self.anonymizer4.cache", "self.anonymizer6.cache",
                      "self.anonymizer_sensitive_word.sens_word_replacements", "log"],
            # a file that cannot be read fails before anything is written or recorded (fault isolation, C16)
@@ -226,6 +280,6 @@ R.contract(M + "FileAnonymizer.anonymize_io",
                                   heap_modifies=["out_io.written", "self.pwd_lookup", "self.anonymizer4.cache",
                                                  "self.anonymizer6.cache",
                                                  "self.anonymizer_sensitive_word.sens_word_replacements"],
-                                  invariant=[WF4, WF6, ASOK,
+                                  invariant=[WF4, WF6, ASOK, WOK,
                                              "len(seq(out_io.written)) == len(seq(old(out_io.written))) + _i0",
                                              "PipelineOK(self, 'line')"])})
